@@ -283,37 +283,47 @@ Proof. exact ck_premises. Qed.
 Print Assumptions C03_checkpoint_raises_fifo_nonvacuous.
 
 (* ---- a task that has not started yet (audit C03 item 2) ----
-   The full statement is ActThms.new_task_cancelled_stmt (three iterations; NOT proved).  Proved part: under
-   arbitrary activity of the others (wokn: any act of another task or of the environment, any head-of-queue
-   callback that does not resume t), the first step of a freshly spawned task is run within the current
-   iteration.  If a (native) request was recorded on it before, the step ends the task as cancelled without
-   running its body; otherwise the task starts and parks at its first decision point on a fresh pending future
-   with no request recorded, i.e. it meets the task-side premises of C03_cancel_latency_any_activity, which then
-   gives two more iterations for whatever cancelled hosted scope it reaches (AnyIO deliveries skip an unstarted
-   task, so that scope's delivery callback is still scheduled by C03_delivery_alive).  Missing for the full
-   statement: that the task still reaches SOME cancelled hosted scope after the intervening ops and its own
-   first step (entering its handle scope), unless somebody shielded it. *)
-Theorem C03_new_task_cancelled_partial : forall t s ops s',
+   wok2 t s ops = before t's first step ARun (HStep t): every op is an act of somebody else (as in wop) or the run of
+                  the head-of-queue callback unless it resumes t; after that step, with fp the future t is parked
+                  on: wok0 t fp (the window of C03_cancel_latency_any_activity)
+   GoalN t s ops = a resumption of t in the run raised a cancellation (or the future it was parked on was completed
+                  with a value first), or at some state t is done, or at some state t is not effectively cancelled
+   A freshly spawned task (frame CNew, first step queued) reaches the cancelled hosted scope c at an iteration
+   boundary.  Within three iterations of arbitrary activity of the others GoalN holds: AnyIO deliveries skip a task
+   that has not started, its first step runs in iteration 1 (a request recorded before ends it without running),
+   entering its handle scope keeps it under a cancelled scope (the group scope's, or its own handle scope's if
+   that was cancelled) unless a shield is raised, and the latency theorem covers iterations 2 and 3. *)
+Theorem C03_new_task_cancelled : forall t c s ops1 ops2 ops3 s1 s2 s3,
   reach_ok s -> running s <> Some t -> k_ctl (tasks s t) = CNew -> k_started (tasks s t) = false ->
-  k_waiter (tasks s t) = None -> k_done (tasks s t) = None -> In (HStep t) (ready s) -> t < ntask s ->
-  wcyc (length (ready s)) s ops s' -> wokn t s ops ->
-  exists si, In (si, ARun (HStep t)) (trace s ops) /\ reach_ok si /\
-    let b := fst (step si (ARun (HStep t))) in
-    (k_must (tasks s t) = true -> k_ctl (tasks b t) = CDone /\ exists e, k_done (tasks b t) = Some (OCanc (ECancel e))) /\
-    (k_must (tasks si t) = false ->
-       reach_ok b /\ running b <> Some t /\ k_started (tasks b t) = true /\ k_done (tasks b t) = None /\
-       k_must (tasks b t) = false /\ wait_ctl (k_ctl (tasks b t)) = true /\
-       exists fp, k_waiter (tasks b t) = Some fp /\ f_st (futs b fp) = FPend).
-Proof. exact new_task_first_step. Qed.
-Print Assumptions C03_new_task_cancelled_partial.
+  k_waiter (tasks s t) = None -> k_done (tasks s t) = None -> In (HStep t) (ready s) ->
+  s_cancelled (scopes s c) = true -> s_host (scopes s c) <> None -> reaches s t c ->
+  wcyc (length (ready s)) s ops1 s1 -> wcyc (length (ready s1)) s1 ops2 s2 -> wcyc (length (ready s2)) s2 ops3 s3 ->
+  wok2 t s (ops1 ++ ops2 ++ ops3) ->
+  (exists si h, In (si, ARun h) (trace s (ops1 ++ ops2 ++ ops3)) /\ (h = HStep t \/ exists g, h = HWake t g) /\
+     ((exists o, snd (step si (ARun h)) = RExc (ECancel o)) \/
+      (exists g, h = HWake t g /\ ((exists v, f_st (futs si g) = FRes v) \/ (exists e, f_st (futs si g) = FExc e))))) \/
+  (exists si, In si (states s (ops1 ++ ops2 ++ ops3)) /\ k_done (tasks si t) <> None) \/
+  (exists si, In si (states s (ops1 ++ ops2 ++ ops3)) /\
+              eff_cancelled_from (nscope si) si (k_cur (tasks si t)) = false).
+Proof. exact new_task_cancelled. Qed.
+Print Assumptions C03_new_task_cancelled.
 
-(* non-vacuity: a child spawned into a task group whose scope is already cancelled; nt_ops = [ARun (HDeliver 1);
-   ARun (HStep 2)]: the delivery callback skips the unstarted child, then the child takes its first step *)
-Theorem C03_new_task_cancelled_partial_nonvacuous :
+(* non-vacuity: a child spawned into a task group whose scope is already cancelled.
+   nt_ops1 = [ARun (HDeliver 1); ARun (HStep 2)], nt_ops2 = [ARun (HWake 1 5); ARun (HDeliver 1)],
+   nt_ops3 = [ARun (HWake 1 7); ARun (HWake 2 6); ARun (HDeliver 1)] *)
+Theorem C03_new_task_cancelled_nonvacuous :
   let s := final step init [ANewRoot; AGroupNew 1; AGroupEnter 1 1; ACancel 1 1; ASpawn 1 1] in
   reach_ok s /\ running s <> Some 2 /\ k_ctl (tasks s 2) = CNew /\ k_started (tasks s 2) = false /\
   k_waiter (tasks s 2) = None /\ k_done (tasks s 2) = None /\ In (HStep 2) (ready s) /\ 2 < ntask s /\
   s_cancelled (scopes s 1) = true /\ reaches s 2 1 /\ k_must (tasks s 2) = false /\
   wokn 2 s nt_ops /\ exists s', wcyc (length (ready s)) s nt_ops s'.
 Proof. exact nt_premises. Qed.
-Print Assumptions C03_new_task_cancelled_partial_nonvacuous.
+Print Assumptions C03_new_task_cancelled_nonvacuous.
+
+Theorem C03_new_task_cancelled_nonvacuous_window :
+  let s := final step init nt_pre in
+  wok2 2 s (nt_ops1 ++ nt_ops2 ++ nt_ops3) /\
+  exists s1 s2 s3, wcyc (length (ready s)) s nt_ops1 s1 /\ wcyc (length (ready s1)) s1 nt_ops2 s2 /\
+                   wcyc (length (ready s2)) s2 nt_ops3 s3.
+Proof. exact nt3_premises. Qed.
+Print Assumptions C03_new_task_cancelled_nonvacuous_window.
